@@ -1,7 +1,7 @@
 (* C11_roundtrip: the receiver, fed what the sender writes for a tree, leaves a faithful copy of the
    tree in the target directory and answers every step with an acknowledgement. *)
 From PV Require Import Pcp.FsModel Pcp.PcpSink Pcp.PcpClient Pcp.FsFacts Pcp.FsAlgebra Pcp.FsForward
-  Pcp.PcpSinkFacts Pcp.PcpClientFacts Pcp.PcpRecords Pcp.PcpStep Pcp.PcpEncode.
+  Pcp.PcpSinkFacts Pcp.PcpClientFacts Pcp.PcpRecords Pcp.PcpStep Pcp.PcpEncode Pcp.PcpConfined.
 From PV Require Import Base.Decimal Base.DecimalFacts.
 Local Open Scope N_scope.
 
@@ -190,3 +190,138 @@ Proof.
       cbn [w_in w_fs say logi set_fs set_in]. repeat split; auto.
       apply acked_ack. exact Hack3.
 Qed.
+
+(* ---- what the copy of a tree looks like when it is created from scratch ---- *)
+Definition dmode (m pm : N) : N :=
+  if pres && c_dirmode cfg then N.land m 4095 else mkdir_mode (N.land m 4095) um pm.
+
+Fixpoint copy_of (pm : N) (n : node) : node :=
+  match n with
+  | File m _ d => File (create_mode (N.land m 4095) um) (if pres then Some (node_mtime n) else None) d
+  | Dir m _ ents =>
+    Dir (dmode m pm) (if pres then Some (node_mtime n) else None)
+        ((fix go (l : list (name * node)) : list (name * node) :=
+            match l with [] => [] | (k, v) :: r => (k, copy_of (dmode m pm) v) :: go r end) ents)
+  end.
+
+Definition copy_list (pm : N) (l : list (name * node)) : list (name * node) :=
+  (fix go (l : list (name * node)) : list (name * node) :=
+     match l with [] => [] | (k, v) :: r => (k, copy_of pm v) :: go r end) l.
+
+Lemma copy_of_dir pm m t ents :
+  copy_of pm (Dir m t ents) = Dir (dmode m pm) (if pres then Some (node_mtime (Dir m t ents)) else None) (copy_list (dmode m pm) ents).
+Proof. reflexivity. Qed.
+
+Lemma copy_list_cons pm k v r : copy_list pm ((k, v) :: r) = (k, copy_of pm v) :: copy_list pm r.
+Proof. reflexivity. Qed.
+
+(* ---- the sources the theorem speaks about ---- *)
+Definition TMAX : Z := 9223372036854775808.
+
+Fixpoint wf_src (n : node) : Prop :=
+  (pres = true -> (0 <= node_mtime n < TMAX)%Z) /\
+  match n with
+  | File _ _ d => N.of_nat (length d) < 9223372036854775808
+  | Dir _ _ ents =>
+    names_distinct ents /\
+    (fix all (l : list (name * node)) : Prop :=
+       match l with [] => True | (k, v) :: r => good_name k /\ wf_src v /\ all r end) ents
+  end.
+
+Fixpoint wf_src_list (l : list (name * node)) : Prop :=
+  match l with [] => True | (k, v) :: r => good_name k /\ wf_src v /\ wf_src_list r end.
+
+Lemma wf_src_dir m t ents :
+  wf_src (Dir m t ents) <->
+  (pres = true -> (0 <= node_mtime (Dir m t ents) < TMAX)%Z) /\ names_distinct ents /\ wf_src_list ents.
+Proof.
+  split.
+  - intros (A & B & C). split; [exact A|]. split; [exact B|]. clear A B.
+    induction ents as [|[k v] r IH]; [exact I|]. destruct C as (C1 & C2 & C3). cbn [wf_src_list]. auto.
+  - intros (A & B & C). cbn [wf_src]. split; [exact A|]. split; [exact B|]. clear A B.
+    induction ents as [|[k v] r IH]; [exact I|]. cbn [wf_src_list] in C. destruct C as (C1 & C2 & C3). split; [exact C1|]. split; [exact C2|]. apply IH; exact C3.
+Qed.
+
+(* every path name the receiver builds below a string of length `used` stays under PATH_MAX *)
+Fixpoint fits (used : nat) (n : node) : Prop :=
+  match n with
+  | File _ _ _ => True
+  | Dir _ _ ents =>
+    (fix all (l : list (name * node)) : Prop :=
+       match l with
+       | [] => True
+       | (k, v) :: r => (used + 1 + length k < PATH_MAX)%nat /\ fits (used + 1 + length k) v /\ all r
+       end) ents
+  end.
+
+Fixpoint fits_list (used : nat) (l : list (name * node)) : Prop :=
+  match l with
+  | [] => True
+  | (k, v) :: r => (used + 1 + length k < PATH_MAX)%nat /\ fits (used + 1 + length k) v /\ fits_list used r
+  end.
+
+Lemma fits_dir used m t ents : fits used (Dir m t ents) <-> fits_list used ents.
+Proof.
+  cbn [fits]. induction ents as [|[k v] r IH]; [tauto|].
+  cbn [fits_list]. split; intros (A & B & C); repeat split; auto; apply IH; exact C.
+Qed.
+
+(* -y: the destination given on the command line is (still) a directory *)
+Definition ydir_ok (fs : node) : Prop :=
+  c_ydir cfg = true -> exists p t m mt e, resolve fs cwd (c_dest cfg) = ROk p t /\ lookup fs p = Some (Dir m mt e).
+
+Lemma ydir_ok_ext a b : ext a b -> ydir_ok a -> ydir_ok b.
+Proof.
+  intros He H Hy. destruct (H Hy) as (p & t & m & mt & e & Hr & Hl).
+  assert (Hd : is_dir b p = true) by (apply He; unfold is_dir; now rewrite Hl).
+  apply is_dir_lookup in Hd. destruct Hd as (m' & mt' & e' & Hl').
+  exists p, t, m', mt', e'. split; [eapply resolve_ext; eauto|exact Hl'].
+Qed.
+
+Lemma set_at_ext_new fs p X fs' : set_at fs p X = Some fs' -> lookup fs p = None -> ext fs fs'.
+Proof. intros Hs Hl. eapply set_at_ext; [exact Hs|]. now rewrite Hl. Qed.
+
+(* ---- entering a directory that exists ---- *)
+Lemma enter_dir np w k p t m mt e :
+  ydir_ok (w_fs w) -> resolve (w_fs w) cwd np = ROk p t -> lookup (w_fs w) p = Some (Dir m mt e) ->
+  exists w1, enter cfg np w k = k true w1 /\ w_in w1 = w_in w /\ w_fs w1 = w_fs w /\ acked w w1 1.
+Proof.
+  intros Hy Hr Hl. unfold enter.
+  destruct (c_ydir cfg) eqn:Ey.
+  - destruct (Hy Ey) as (pd & td & md & mtd & ed & Hrd & Hld).
+    rewrite (do_stat_dir _ _ _ _ _ _ _ Hrd Hld). cbn [negb].
+    set (w0 := say Ack (logi (Touch OStat pd true) w)).
+    rewrite (do_stat_dir np w0 p t m mt e) by (cbn; assumption).
+    eexists. split; [reflexivity|]. cbn. repeat split; auto.
+    apply acked_quiet_item; [exact I|]. apply acked_ack. apply acked_quiet_item; [exact I|]. apply acked_refl.
+  - cbn [negb]. set (w0 := say Ack w).
+    rewrite (do_stat_dir np w0 p t m mt e) by (cbn; assumption).
+    eexists. split; [reflexivity|]. cbn. repeat split; auto.
+    apply acked_quiet_item; [exact I|]. apply acked_ack. apply acked_refl.
+Qed.
+
+(* ---- lines ---- *)
+Lemma line_fits : 400 < LINEMAX.
+Proof. reflexivity. Qed.
+
+Lemma ndigits_bound n : n < 9223372036854775808 -> (length (digits n) <= 19)%nat.
+Proof.
+  intro H. rewrite digits_length. apply ndigits_le_pow; [|lia].
+  eapply N.lt_le_trans; [exact H|]. cbn. lia.
+Qed.
+
+Lemma digits_no c n : is_digit c = false -> ~ In c (digits n).
+Proof.
+  intros Hc Hin. pose proof (digits_all_digit n) as A. rewrite forallb_forall in A.
+  rewrite (A _ Hin) in Hc. discriminate.
+Qed.
+
+Lemma oct4_no c m : is_digit c = false -> ~ In c (oct4 m).
+Proof.
+  intros Hc Hin. unfold oct4 in Hin. cbn [In] in Hin.
+  assert (forall x, x < 8 -> is_digit (48 + x) = true) as Hd by (intros x Hx; unfold is_digit; apply andb_true_iff; split; apply N.leb_le; lia).
+  destruct Hin as [E|[E|[E|[E|[]]]]]; subst c;
+    rewrite Hd in Hc; try discriminate; apply N.mod_lt; discriminate.
+Qed.
+
+End Round.
